@@ -1,7 +1,7 @@
 #!/usr/bin/env python3
 """copies confirmed seeded changes from /tmp/mut/<ID>/out into /verif/seeded/<ID><variant>/"""
 import json, os, shutil, re, sys
-MUT = "/tmp/mut"
+MUT = os.environ.get("MUTDIR", "/tmp/mut")
 VERIF = os.path.dirname(os.path.dirname(os.path.abspath(__file__)))
 res = json.load(open(os.path.join(MUT, "results.json")))
 for key, r in sorted(res.items()):
